@@ -118,6 +118,42 @@ def recv_streams():
     return rows
 
 
+def large_rows():
+    """(payload size, cut positions, stream, sent): a large message, a small one and an empty
+    one; the chunk that completes the large payload ends at the frame boundary -1 / 0 / +1"""
+    rows = []
+    for n in (65535, 65536, 65537, 200000):
+        payload = bytes((i * 11 + n) % 253 for i in range(n))
+        sent = [(b'big', payload), (b'next', b'1'), (b'last', b'')]
+        stream = b''.join(mk_frame(GRID_MAGIC, c, p) for c, p in sent)
+        end = 24 + n
+        for pre in ([24], list(range(16384, end - 1, 16384))):
+            for d in (-1, 0, 1):
+                rows.append((n, [c for c in pre if c < end + d] + [end + d], stream, sent))
+    return rows
+
+
+def _cut(stream, cuts):
+    out, start = [], 0
+    for c in cuts:
+        out.append(stream[start:c])
+        start = c
+    out.append(stream[start:])
+    return out
+
+
+def _desc(out):
+    """outcomes as (code, command, payload length, payload checksum): enough to tell whether a
+    payload came out intact without writing it down"""
+    res = []
+    for o in out:
+        if o[0] == 'M':
+            res.append((0, list(o[1]), len(o[2]), list(dsha4(o[2]))))
+        else:
+            res.append((CODE.get(o[1], 9) if o[0] == 'E' else 9, [], 0, []))
+    return res
+
+
 def _frame_calls():
     """(magic, [(cmd, payload), ...]) - the calls are made in this order on ONE framer per magic
     (a long command directly before a shorter one)"""
@@ -277,6 +313,11 @@ def extract(repo):
                 mods, c07_fake.new_framer(framing, GRID_MAGIC, *SESS_LIMITS), [grace_probe_stream()],
                 kind='client', lose=lose)
             grace[lose] = G_NEVER if obs['errors'] >= PROBE_FATALS else max(0, obs['errors'] - 1)
+        large = []
+        for n, cuts, stream, sent in large_rows():
+            out = await c07_fake.recv_outcomes(
+                framing, c07_fake.new_framer(framing, GRID_MAGIC, 300000, 300000), _cut(stream, cuts))
+            large.append((n, cuts, _desc([('M', c, p) for c, p in sent]), _desc(out)))
         sess = []
         for mp, mb, lose, g, stream in session_streams(grace[0], grace[LATE]):
             outs = await c07_fake.recv_outcomes(
@@ -291,8 +332,8 @@ def extract(repo):
         dflt = type(dsess.default_framer()).__name__
         fake.abort()
         await asyncio.sleep(0.01)
-        return first, grid, sess, grace, await threshold(b'x'), await threshold(b'block'), dflt
-    first, grid, sess, grace, mp_default, mb_default, default_framer = _run(probes())
+        return first, grid, sess, grace, await threshold(b'x'), await threshold(b'block'), dflt, large
+    first, grid, sess, grace, mp_default, mb_default, default_framer, large = _run(probes())
 
     ftab = frame_table(framing)
     pprobe = pack_probe(framing)
@@ -316,6 +357,7 @@ def extract(repo):
         'frame_table': [(list(m), list(c), list(p), code, list(b)) for m, c, p, code, b in ftab],
         'pack_probe': [(n, code, list(b)) for n, code, b in pprobe],
         'sess_table': sess,
+        'large_table': large,
         'g_never': G_NEVER,
         'g_soon': grace[0],
         'g_late': grace[LATE],
@@ -353,6 +395,8 @@ def render(f):
     sess = ',\n  '.join(
         f'({g}, {_outs(o)}, {e}, {_bool(cl)}, [' + ', '.join(f'({lb(c)}, {lb(p)})' for c, p in d) + '])'
         for g, o, e, cl, d in f['sess_table'])
+    dsc = lambda ds: '[' + ', '.join(f'({k}, {lb(c)}, {n}, {lb(ck)})' for k, c, n, ck in ds) + ']'
+    larges = ',\n  '.join(f'({n}, {cuts}, {dsc(sent)}, {dsc(out)})' for n, cuts, sent, out in f['large_table'])
     costs = f['costs']
     cost_ok = all(isinstance(v, (int, float)) and v == int(v) and v >= 0 for v in costs.values())
     cost_list = [int(costs[k]) for k in ('BadMagicError', 'OversizedPayloadError', 'BadChecksumError')] \
@@ -400,6 +444,12 @@ def render(f):
         '    `abort()` (g = gNever) -/\n'
         'noncomputable def sessTable : List (Nat × List (Nat × List UInt8 × List UInt8) × Nat × Bool ×\n'
         f'    List (List UInt8 × List UInt8)) := [\n  {sess}]\n'
+        '/-- (payload size n, cut positions, what was sent, outcomes): frames of a payload of n bytes, a\n'
+        '    1-byte and an empty payload, cut so that the chunk completing the large payload ends at\n'
+        '    the frame boundary -1 / 0 / +1; messages as (0, command, payload length, payload checksum),\n'
+        '    errors as (1|2|3|9, [], 0, []) -/\n'
+        'noncomputable def largeTable : List (Nat × List Nat × List (Nat × List UInt8 × Nat × List UInt8) ×\n'
+        f'    List (Nat × List UInt8 × Nat × List UInt8)) := [\n  {larges}]\n'
         '/-- `cost` attributes of BadMagicError, OversizedPayloadError, BadChecksumError\n'
         '    (parameters; no theorem depends on their values) -/\n'
         f'def costs : List Nat := {cost_list}\n'
